@@ -51,6 +51,7 @@ func main() {
 		os.Exit(2)
 	}
 	p.BuildSummaries()
+	p.BuildLockInfo()
 	work, err := os.MkdirTemp("", "lhv-")
 	if err != nil {
 		fmt.Fprintln(os.Stderr, err)
